@@ -9,6 +9,7 @@ import Driver.RecvCredit
 import Driver.Frame
 import Driver.Codec
 import Driver.Reasm
+import Driver.Handles
 
 structure DState where
   sess : Amqp.Session.St := Amqp.Session.init 0 0 0
@@ -16,6 +17,7 @@ structure DState where
   recv : Amqp.RecvCredit.RSt := Amqp.RecvCredit.attached 0 .manual
   frame : Nat × Amqp.Frame.DecSt := (512, Amqp.Frame.decInit)
   reasm : Option Amqp.Reasm.Inc := none
+  links : Amqp.Handles.Links := Amqp.Handles.Links.empty
 
 def handle (st : DState) (line : String) : DState × String :=
   match Driver.words line with
@@ -39,6 +41,10 @@ def handle (st : DState) (line : String) : DState × String :=
   | "M" :: ws =>
     match Driver.Reasm.step st.reasm ws with
     | some (s, out) => ({ st with reasm := s }, out)
+    | none => (st, "bad-op")
+  | "H" :: ws =>
+    match Driver.Handles.step st.links ws with
+    | some (s, out) => ({ st with links := s }, out)
     | none => (st, "bad-op")
   | "W" :: ws => (st, (Driver.Credit.wait ws).getD "bad-op")
   | _ => (st, "bad-op")
